@@ -12,7 +12,8 @@ CONSTANTS TableSource, \* "json": the batch of platform tables in the file named
           MaxLen,      \* bound on the history length, 0 = none
           Mutant       \* "" or "leak_partial" (a refused request keeps the pins examined before the conflict)
 
-(* the table of the known defect scenario, written out (the same table is generated as "demo") *)
+(* a table written out in TLA+ (TableSource = "demo"): a cut-down version of the generated table "subsig", *)
+(* in which a request is refused at a later subsignal although an earlier one is free                     *)
 Leaf(nm, k, names, nnames, d, inv, clk) ==
     [name |-> nm, kind |-> k, subs |-> <<>>, names |-> names, nnames |-> nnames, dir |-> d, invert |-> inv,
      has_conn |-> FALSE, conn |-> [name |-> "", number |-> 0], clock |-> clk]
@@ -109,5 +110,4 @@ ConstraintsOneToOne ==
     /\ \A x, y \in c.pins : (x[5] = y[5] \/ <<x[1], x[2], x[3], x[4]>> = <<y[1], y[2], y[3], y[4]>>) => x = y
     /\ \A x, y \in c.clocks : <<x[1], x[2], x[3]>> = <<y[1], y[2], y[3]>> => x = y
     /\ Cardinality(c.pins) = Cardinality(DOMAIN owner)
-Constr == TRUE
 =============================================================================
